@@ -13,7 +13,7 @@ import vlib
 SOURCES = ["alg/sha256.c", "alg/sha1.c", "alg/md5.c", "util/insecure_memzero.c"]
 ALGS = ("sha256", "sha1", "md5")
 BOUNDARY_LENS = [0, 1, 54, 55, 56, 57, 62, 63, 64, 65, 66, 118, 119, 120, 121, 122, 127, 128, 129]
-KEY_LENS = [0, 1, 63, 64, 65, 100, 200]
+KEY_LENS = [0, 1, 63, 64, 65, 100, 131, 200]
 
 
 def hx(bs):
@@ -163,8 +163,9 @@ def gen_hmac(ctx):
                 msg = rand_bytes(ctx, ln)
                 parts = partition(ctx, msg, r.choice(PART_KINDS[:4] + PART_KINDS[5:]), "hmac")
                 cases.append("hmac-%s s %s %s" % (alg, hx(key), " ".join(hx(p) for p in parts)))
-                if r.randrange(2) == 0:
+                if kl in KEY_LENS or r.randrange(2) == 0:      # the one-shot path, always for the listed key lengths
                     cases.append("hmac-%s b %s %s" % (alg, hx(key), hx(msg)))
+                    ctx.count("hmac.oneshot.%s" % ("key<=64" if kl <= 64 else "key>64"))
             ctx.count("hmac.keylen.%s" % ("<64" if kl < 64 else "=64" if kl == 64 else ">64"))
     return [c.rstrip() for c in cases]
 
@@ -192,6 +193,54 @@ def gen_pbkdf2(ctx):
         for c in (1000, 257 + r.randrange(0, 600)):
             cases.append("pbkdf2 %s %s %x %d" % (hx(rand_bytes(ctx, 12)), hx(rand_bytes(ctx, 16)), c, r.choice([33, 40, 64])))
             ctx.count("pbkdf2.c.large")
+    return cases
+
+
+def gen_resume(ctx):
+    """White-box: the whole public context (state words, bit count, buffer) is set by hand so that
+    the bit counter sits just below / at / above a multiple of 2^32 bits (carry from the low into
+    the high count word of SHA-1 / MD5, in both word orders) or just below 2^64 bits (wrap of the
+    64-bit count), with residues r in {0,1,55,56,63,...}; one short Update crosses the boundary."""
+    r = ctx.rng
+    cases = []
+    nst = {"sha256": 32, "sha1": 20, "md5": 16}
+    his = [1, 2, 1 << 32]                       # boundary = hi * 2^32 bits; 2^32 * 2^32 = the 2^64 wrap
+    for alg in ALGS:
+        for rep in range(ctx.n(1, 12)):
+            for hi in his + [r.randrange(1, 1 << 32)]:
+                boundary_bytes = hi << 29
+                for res in [0, 1, 55, 56, 63, r.randrange(2, 55), r.randrange(57, 63)]:
+                    base = (64 - res) % 64            # bytes missing to the boundary, modulo 64
+                    for where in ("below", "below", "at", "above"):
+                        if where == "below":
+                            delta = base + 64 * r.randrange(0, 3)
+                            if delta == 0:
+                                delta = 64
+                            nb = boundary_bytes - delta
+                            lens = [r.choice([delta, delta + 1, delta + r.randrange(1, 201), max(0, delta - 1), r.randrange(0, delta + 1)])]
+                        elif where == "at":
+                            if res != 0:
+                                continue
+                            nb, delta = boundary_bytes, 0
+                            lens = [r.randrange(0, 200)]
+                        else:
+                            nb, delta = boundary_bytes + res + 64 * r.randrange(0, 3), 0
+                            lens = [r.randrange(0, 200)]
+                        lens.append(r.randrange(0, 130))
+                        bits = (8 * nb) % (1 << 64)
+                        lo, hw = bits & 0xffffffff, bits >> 32
+                        if alg == "sha256":
+                            c0, c1 = bits, 0
+                        elif alg == "sha1":
+                            c0, c1 = hw, lo
+                        else:
+                            c0, c1 = lo, hw
+                        parts = [rand_bytes(ctx, l) for l in lens]
+                        cases.append(("resume-%s %s %x %x %s %s" % (alg, hx(rand_bytes(ctx, nst[alg])), c0, c1,
+                                                                   hx(rand_bytes(ctx, 64)), " ".join(hx(p) for p in parts))).rstrip())
+                        crossed = where == "below" and lens[0] >= delta
+                        ctx.count("resume.%s.%s" % ("2^64" if hi == 1 << 32 else "k*2^32",
+                                                    "crossing" if crossed else where))
     return cases
 
 
@@ -285,6 +334,15 @@ def check_xform(ctx):
             ("xform-",))
 
 
+def check_resume(ctx):
+    run_c01(ctx, "resume", gen_resume(ctx),
+            "white-box: SHA1_CTX / MD5_CTX / SHA256_CTX written by hand with the bit count just below / at / above "
+            "k*2^32 bits (carry between the two count words, both word orders) and 2^64 bits (wrap), residues "
+            "{0,1,55,56,63,..}, one short Update across the boundary, Final; digest and the bit count after each "
+            "Update: impl = model = standard's padding/compression continued from that chaining value",
+            ("resume-",))
+
+
 def check_wipe(ctx):
     """C20 (hash part): after XXX_Final / HMAC_XXX_Final every byte of the context object is zero;
     the model's returned context is all-zero (proved: C20_*_final_zeroes_ctx)."""
@@ -333,4 +391,4 @@ def check_wipe(ctx):
                samples=[cases[0][:200], cases[-1][:200]])
 
 
-SUBCHECKS = {"C01": [check_digest, check_hmac, check_pbkdf2, check_xform], "C20": [check_wipe]}
+SUBCHECKS = {"C01": [check_digest, check_hmac, check_pbkdf2, check_xform, check_resume], "C20": [check_wipe]}
